@@ -3,6 +3,7 @@
 package opentype
 
 import (
+	"bytes"
 	"compress/zlib"
 	"encoding/binary"
 	"errors"
@@ -135,6 +136,9 @@ func (pr *Loader) findTableBuffer(s tableSection, dst []byte) ([]byte, error) {
 		defer r.Close()
 
 		if cap(dst) < int(s.zLength) {
+			if s.zLength > maxTablePrealloc {
+				return readProgressively(r, s.zLength, dst)
+			}
 			dst = make([]byte, s.zLength)
 		}
 		dst = dst[0:s.zLength]
@@ -143,6 +147,9 @@ func (pr *Loader) findTableBuffer(s tableSection, dst []byte) ([]byte, error) {
 		}
 	} else {
 		if cap(dst) < int(s.length) {
+			if s.length > maxTablePrealloc {
+				return readProgressively(io.NewSectionReader(pr.file, int64(s.offset), int64(s.length)), s.length, dst)
+			}
 			dst = make([]byte, s.length)
 		}
 		dst = dst[0:s.length]
@@ -151,6 +158,26 @@ func (pr *Loader) findTableBuffer(s tableSection, dst []byte) ([]byte, error) {
 		}
 	}
 	return dst, nil
+}
+
+// maxTablePrealloc is the largest table length (as declared by the font directory)
+// for which the buffer is allocated upfront. The directory is not trusted for
+// larger values : the buffer then grows with the data actually read, so that
+// an invalid length does not trigger a huge allocation.
+const maxTablePrealloc = 1 << 20
+
+// readProgressively reads exactly [length] bytes from r, without trusting [length]
+// to size the buffer.
+func readProgressively(r io.Reader, length uint32, dst []byte) ([]byte, error) {
+	buf := bytes.NewBuffer(dst[:0])
+	n, err := io.CopyN(buf, r, int64(length))
+	if err != nil {
+		if err == io.EOF && n < int64(length) {
+			err = io.ErrUnexpectedEOF
+		}
+		return nil, err
+	}
+	return buf.Bytes(), nil
 }
 
 // HasTable returns true if [table] is present.
